@@ -8,7 +8,7 @@ From Prtpy Require Import Base.Prelude Model.Binner Model.Greedy Model.Packing M
   Spec.Rules Proofs.BaseLemmas Proofs.BinnerLemmas.
 From Coq Require Import Sorting.Sorted ZifyBool.
 
-Definition id : Z -> Z := fun v => v.
+(** [id] below is the standard library identity [@id Z] (Coq.Init.Datatypes.id), i.e. [fun v : Z => v]. *)
 
 (** ================= common facts linking [bins Z] and [vbins] ================= *)
 
@@ -114,7 +114,7 @@ Lemma ff_place_ff_step C v (b : bins Z) : wf id b ->
 Proof.
   induction 1 as [|bn t Hb Ht IH]; cbn [ff_place].
   - apply (ff_new C v []). constructor.
-  - apply wf_bin_id in Hb. unfold id at 1. destruct (fst bn + v <=? C) eqn:E.
+  - apply wf_bin_id in Hb. change (id v) with v. destruct (fst bn + v <=? C) eqn:E.
     + change (lists (add_to_bin id true v bn :: t)) with (put 0 v (lists (bn :: t))).
       apply ff_existing.
       * cbn [lists map length]. lia.
@@ -218,7 +218,7 @@ Qed.
 Lemma bf_place_bf_step C v (b : bins Z) : wf id b -> nonneg_sums b -> 0 <= v ->
   bf_step C v (lists b) (lists (bf_place id true C v b)).
 Proof.
-  intros Hwf Hnn Hv. unfold bf_place. unfold id at 1.
+  intros Hwf Hnn Hv. unfold bf_place. change (id v) with v.
   assert (Hsum : forall j, (j < length b)%nat -> fst (nth j b empty_bin) = zsum (nth j (lists b) [])).
   { intros j Hj. rewrite nth_lists. apply wf_bin_id. unfold wf in Hwf. rewrite Forall_forall in Hwf.
     apply Hwf. apply nth_In. exact Hj. }
@@ -308,6 +308,12 @@ Theorem bfd_refines_rule : forall C vs b, vs <> [] -> Forall (fun v => 0 <= v <=
 Proof.
   intros C vs b Hne Hvs. apply bfd_refines_rule_gen; [exact Hne|].
   eapply Forall_impl; [|exact Hvs]. cbv beta. intros v Hv. lia.
+Qed.
+
+Example bf_empty_input_differs :
+  rmap lists (best_fit id true 5 []) = Ok [[]] /\ (forall b, bf_rule 5 [] b -> b = []).
+Proof.
+  split; [vm_compute; reflexivity|]. intros b H. inversion H; subst. reflexivity.
 Qed.
 
 (** best-fit needs non-negative values: the scan starts from best sum -1, so a bin whose new
@@ -713,16 +719,17 @@ Proof. unfold deal, range. rewrite map_length. apply range_from_length. Qed.
 Lemma deal_nth k l j : (j < k)%nat -> nth j (deal k l) [] = every_kth k j l.
 Proof.
   intros Hj. unfold deal.
-  rewrite nth_indep with (d' := (fun j => every_kth k j l) O).
-  - rewrite map_nth. unfold range. rewrite range_from_nth by exact Hj. reflexivity.
-  - rewrite map_length. unfold range. rewrite range_from_length. exact Hj.
+  transitivity (nth j (map (fun j0 => every_kth k j0 l) (range k)) ((fun j0 => every_kth k j0 l) O)).
+  - apply nth_indep. rewrite map_length. unfold range. rewrite range_from_length. exact Hj.
+  - rewrite (map_nth (fun j0 => every_kth k j0 l) (range k) O j).
+    unfold range. rewrite range_from_nth by exact Hj. reflexivity.
 Qed.
 
 Lemma put_nth i v (b : vbins) j : (i < length b)%nat ->
   nth j (put i v b) [] = if (j =? i)%nat then nth j b [] ++ [v] else nth j b [].
 Proof.
   intros Hi. unfold put. destruct (Nat.eqb_spec j i) as [E|E].
-  - subst j. apply update_nth_same. exact Hi.
+  - subst j. rewrite update_nth_same by exact Hi. reflexivity.
   - apply update_nth_other. auto.
 Qed.
 
@@ -758,3 +765,334 @@ Proof.
     rewrite lists_new_bins, nth_repeat_nil. cbn [app]. unfold off.
     destruct (Nat.leb_spec O j) as [L|L]; [|lia]. f_equal. lia.
 Qed.
+
+(** ================= PART 2: determinism of the rules ================= *)
+
+Theorem nonincreasing_perm_unique : forall l1 l2,
+  Permutation l1 l2 -> nonincreasing l1 -> nonincreasing l2 -> l1 = l2.
+Proof.
+  unfold nonincreasing. induction l1 as [|a t1 IH]; intros l2 P S1 S2.
+  - apply Permutation_nil in P. symmetry. exact P.
+  - destruct l2 as [|b t2]; [apply Permutation_sym, Permutation_nil in P; discriminate P|].
+    apply StronglySorted_inv in S1. apply StronglySorted_inv in S2.
+    destruct S1 as [S1 F1]. destruct S2 as [S2 F2].
+    assert (Hab : a = b).
+    { assert (Hb : In b (a :: t1)) by (eapply Permutation_in; [symmetry; exact P|left; reflexivity]).
+      assert (Ha : In a (b :: t2)) by (eapply Permutation_in; [exact P|left; reflexivity]).
+      rewrite Forall_forall in F1, F2. destruct Hb as [Hb|Hb]; [congruence|].
+      destruct Ha as [Ha|Ha]; [congruence|]. apply F1 in Hb. apply F2 in Ha. lia. }
+    subst b. f_equal. apply IH; [|exact S1|exact S2]. eapply Permutation_cons_inv. exact P.
+Qed.
+
+Lemma sorted_input_unique vs l1 l2 :
+  Permutation l1 vs -> nonincreasing l1 -> Permutation l2 vs -> nonincreasing l2 -> l1 = l2.
+Proof.
+  intros P1 S1 P2 S2. apply nonincreasing_perm_unique; [|exact S1|exact S2].
+  eapply Permutation_trans; [exact P1|symmetry; exact P2].
+Qed.
+
+(** replacing equal entries of two permuted lists keeps them permuted *)
+Lemma update_perm_same (f : Z -> Z) s s' i i' :
+  Permutation s s' -> (i < length s)%nat -> (i' < length s')%nat -> nth i s 0 = nth i' s' 0 ->
+  Permutation (update i f s) (update i' f s').
+Proof.
+  intros P Hi Hi' E.
+  destruct (update_split i f s Hi) as (l1 & x & l2 & E1 & E2 & E3).
+  destruct (update_split i' f s' Hi') as (l1' & x' & l2' & E1' & E2' & E3').
+  rewrite E3, E3'. subst s s' i i'. rewrite !nth_middle in E. subst x'.
+  apply Permutation_elt. eapply Permutation_app_inv. exact P.
+Qed.
+
+Lemma perm_sum_transfer (a a' : vbins) i :
+  Permutation (vsums a) (vsums a') -> (i < length a)%nat ->
+  exists j, (j < length a')%nat /\ zsum (nth j a' []) = zsum (nth i a []).
+Proof.
+  intros P Hi.
+  assert (Hin : In (nth i (vsums a) 0) (vsums a')).
+  { eapply Permutation_in; [exact P|]. apply nth_In. rewrite vsums_length. exact Hi. }
+  apply In_nth with (d := 0) in Hin. destruct Hin as (j & Hj & Ej).
+  rewrite vsums_length in Hj. rewrite !nth_vsums in Ej. exists j. auto.
+Qed.
+
+(** ---- LPT: the multiset of sums is determined ---- *)
+
+Lemma least_loaded_le i (a : vbins) j : least_loaded i a -> (j < length a)%nat ->
+  zsum (nth i a []) <= zsum (nth j a []).
+Proof.
+  intros [Hi Hall] Hj. rewrite Forall_forall in Hall. rewrite <- !nth_vsums.
+  apply Hall. apply nth_In. rewrite vsums_length. exact Hj.
+Qed.
+
+Lemma lpt_step_perm v (a a' : vbins) i i' :
+  Permutation (vsums a) (vsums a') -> least_loaded i a -> least_loaded i' a' ->
+  Permutation (vsums (put i v a)) (vsums (put i' v a')).
+Proof.
+  intros P L L'. rewrite !vsums_put. pose proof L as [Hi _]. pose proof L' as [Hi' _].
+  apply update_perm_same; [exact P|rewrite vsums_length; exact Hi|rewrite vsums_length; exact Hi'|].
+  rewrite !nth_vsums.
+  destruct (perm_sum_transfer a a' i P Hi) as (j' & Hj' & Ej').
+  destruct (perm_sum_transfer a' a i' (Permutation_sym P) Hi') as (j & Hj & Ej).
+  pose proof (least_loaded_le i a j L Hj). pose proof (least_loaded_le i' a' j' L' Hj'). lia.
+Qed.
+
+Lemma list_scheduling_perm l : forall a a' b b', Permutation (vsums a) (vsums a') ->
+  list_scheduling l a b -> list_scheduling l a' b' -> Permutation (vsums b) (vsums b').
+Proof.
+  induction l as [|v t IH]; intros a a' b b' P H H'.
+  - inversion H; subst. inversion H'; subst. exact P.
+  - inversion H as [|v0 t0 a0 i b0 L R]; subst. inversion H' as [|v0 t0 a0 i' b0 L' R']; subst.
+    apply (IH (put i v a) (put i' v a')); [|exact R|exact R'].
+    apply lpt_step_perm; assumption.
+Qed.
+
+Theorem lpt_rule_deterministic : forall k vs b1 b2,
+  lpt_rule k vs b1 -> lpt_rule k vs b2 -> Permutation (vsums b1) (vsums b2).
+Proof.
+  intros k vs b1 b2 (l1 & P1 & S1 & R1) (l2 & P2 & S2 & R2).
+  assert (E : l1 = l2) by (apply (sorted_input_unique vs); assumption). subst l2.
+  apply (list_scheduling_perm l1 (repeat [] k) (repeat [] k)); [apply Permutation_refl|exact R1|exact R2].
+Qed.
+
+(** ---- runs of a step relation ---- *)
+
+Lemma run_steps_rel (R : vbins -> vbins -> Prop) (step : Z -> vbins -> vbins -> Prop) :
+  (forall v a a' b b', R a a' -> step v a b -> step v a' b' -> R b b') ->
+  forall l a a' b b', R a a' -> run_steps step l a b -> run_steps step l a' b' -> R b b'.
+Proof.
+  intros Hstep. induction l as [|v t IH]; intros a a' b b' HR H H'.
+  - inversion H; subst. inversion H'; subst. exact HR.
+  - inversion H as [|v0 t0 a0 a1 a2 S1 R1]; subst. inversion H' as [|v0 t0 a0 a1' a2 S1' R1']; subst.
+    apply (IH a1 a1'); [|exact R1|exact R1']. apply (Hstep v a a'); assumption.
+Qed.
+
+(** ---- first-fit: the bins are determined ---- *)
+
+Lemma ff_step_det C v a b1 b2 : ff_step C v a b1 -> ff_step C v a b2 -> b1 = b2.
+Proof.
+  intros H1 H2. inversion H1 as [a0 i Hi Hfit Hmin|a0 Hall]; subst;
+    inversion H2 as [a0 i' Hi' Hfit' Hmin'|a0 Hall']; subst.
+  - destruct (Nat.lt_trichotomy i i') as [L|[L|L]].
+    + exfalso. apply (Hmin' i L). exact Hfit.
+    + subst i'. reflexivity.
+    + exfalso. apply (Hmin i' L). exact Hfit'.
+  - exfalso. rewrite Forall_forall in Hall'. apply (Hall' (nth i a [])); [|exact Hfit].
+    apply nth_In. exact Hi.
+  - exfalso. rewrite Forall_forall in Hall. apply (Hall (nth i' a [])); [|exact Hfit'].
+    apply nth_In. exact Hi'.
+  - reflexivity.
+Qed.
+
+Theorem ff_rule_deterministic : forall C vs b1 b2, ff_rule C vs b1 -> ff_rule C vs b2 -> b1 = b2.
+Proof.
+  intros C vs b1 b2 H1 H2. unfold ff_rule in *.
+  apply (run_steps_rel eq (ff_step C)) with (l := vs) (a := []) (a' := []); [|reflexivity|exact H1|exact H2].
+  intros v a a' b b' E S1 S2. subst a'. apply (ff_step_det C v a); assumption.
+Qed.
+
+Theorem ffd_rule_deterministic : forall C vs b1 b2, ffd_rule C vs b1 -> ffd_rule C vs b2 -> b1 = b2.
+Proof.
+  intros C vs b1 b2 (l1 & P1 & S1 & R1) (l2 & P2 & S2 & R2).
+  assert (E : l1 = l2) by (apply (sorted_input_unique vs); assumption). subst l2.
+  apply (ff_rule_deterministic C l1); assumption.
+Qed.
+
+(** ---- best-fit: the multiset of sums is determined ---- *)
+
+Lemma bf_step_perm C v (a a' b b' : vbins) : Permutation (vsums a) (vsums a') ->
+  bf_step C v a b -> bf_step C v a' b' -> Permutation (vsums b) (vsums b').
+Proof.
+  intros P H1 H2. inversion H1 as [a0 i Hi Hfit Hmax|a0 Hall]; subst;
+    inversion H2 as [a0 i' Hi' Hfit' Hmax'|a0 Hall']; subst.
+  - rewrite !vsums_put.
+    apply update_perm_same; [exact P|rewrite vsums_length; exact Hi|rewrite vsums_length; exact Hi'|].
+    rewrite !nth_vsums.
+    destruct (perm_sum_transfer a a' i P Hi) as (j' & Hj' & Ej').
+    destruct (perm_sum_transfer a' a i' (Permutation_sym P) Hi') as (j & Hj & Ej).
+    assert (F' : fits C v (nth j' a' [])) by (unfold fits in *; lia).
+    assert (F : fits C v (nth j a [])) by (unfold fits in *; lia).
+    pose proof (Hmax' j' Hj' F'). pose proof (Hmax j Hj F). lia.
+  - exfalso. destruct (perm_sum_transfer a a' i P Hi) as (j' & Hj' & Ej').
+    rewrite Forall_forall in Hall'. apply (Hall' (nth j' a' [])); [apply nth_In; exact Hj'|].
+    unfold fits in *. lia.
+  - exfalso. destruct (perm_sum_transfer a' a i' (Permutation_sym P) Hi') as (j & Hj & Ej).
+    rewrite Forall_forall in Hall. apply (Hall (nth j a [])); [apply nth_In; exact Hj|].
+    unfold fits in *. lia.
+  - rewrite !vsums_app. apply Permutation_app_tail. exact P.
+Qed.
+
+Theorem bf_rule_deterministic : forall C vs b1 b2,
+  bf_rule C vs b1 -> bf_rule C vs b2 -> Permutation (vsums b1) (vsums b2).
+Proof.
+  intros C vs b1 b2 H1 H2. unfold bf_rule in *.
+  apply (run_steps_rel (fun a a' => Permutation (vsums a) (vsums a')) (bf_step C))
+    with (l := vs) (a := []) (a' := []); [|apply Permutation_refl|exact H1|exact H2].
+  intros v a a' b b' P S1 S2. apply (bf_step_perm C v a a'); assumption.
+Qed.
+
+Theorem bfd_rule_deterministic : forall C vs b1 b2,
+  bfd_rule C vs b1 -> bfd_rule C vs b2 -> Permutation (vsums b1) (vsums b2).
+Proof.
+  intros C vs b1 b2 (l1 & P1 & S1 & R1) (l2 & P2 & S2 & R2).
+  assert (E : l1 = l2) by (apply (sorted_input_unique vs); assumption). subst l2.
+  apply (bf_rule_deterministic C l1); assumption.
+Qed.
+
+(** ---- the rules that are functions of the sorted sequence ---- *)
+
+Theorem rr_rule_deterministic : forall k vs b1 b2, rr_rule k vs b1 -> rr_rule k vs b2 -> b1 = b2.
+Proof.
+  intros k vs b1 b2 (l1 & P1 & S1 & R1) (l2 & P2 & S2 & R2).
+  assert (E : l1 = l2) by (apply (sorted_input_unique vs); assumption). subst. reflexivity.
+Qed.
+
+Theorem nfd_cover_rule_deterministic : forall C vs b1 b2,
+  nfd_cover_rule C vs b1 -> nfd_cover_rule C vs b2 -> b1 = b2.
+Proof.
+  intros C vs b1 b2 (l1 & P1 & S1 & R1) (l2 & P2 & S2 & R2).
+  assert (E : l1 = l2) by (apply (sorted_input_unique vs); assumption). subst. reflexivity.
+Qed.
+
+Theorem twothirds_rule_deterministic : forall C vs b1 b2,
+  twothirds_rule C vs b1 -> twothirds_rule C vs b2 -> b1 = b2.
+Proof.
+  intros C vs b1 b2 (l1 & P1 & S1 & R1) (l2 & P2 & S2 & R2).
+  assert (E : l1 = l2) by (apply (sorted_input_unique vs); assumption). subst. reflexivity.
+Qed.
+
+Theorem threequarters_rule_deterministic : forall C vs b1 b2,
+  threequarters_rule C vs b1 -> threequarters_rule C vs b2 -> b1 = b2.
+Proof.
+  intros C vs b1 b2 (l1 & P1 & S1 & R1) (l2 & P2 & S2 & R2).
+  assert (E : l1 = l2) by (apply (sorted_input_unique vs); assumption). subst. reflexivity.
+Qed.
+
+(** ================= PART 3: the model agrees with ANY run of the rule ================= *)
+
+Theorem greedy_matches_any_lpt : forall k vs b, (1 <= k)%nat ->
+  lpt_rule k vs b -> Permutation (vsums b) (sums (greedy id true k vs)).
+Proof.
+  intros k vs b Hk H. rewrite (sums_vsums _ (greedy_wf k vs)).
+  apply (lpt_rule_deterministic k vs); [exact H|apply greedy_refines_lpt; exact Hk].
+Qed.
+
+Theorem roundrobin_matches_any_rr : forall k vs b, (1 <= k)%nat ->
+  rr_rule k vs b -> b = lists (roundrobin id true k vs).
+Proof.
+  intros k vs b Hk H.
+  apply (rr_rule_deterministic k vs); [exact H|apply roundrobin_refines_rr; exact Hk].
+Qed.
+
+Lemma ff_loop_wf C vs : forall b b', wf id b -> ff_loop id true C vs b = Ok b' -> wf id b'.
+Proof.
+  induction vs as [|v t IH]; intros b b' Hwf; cbn [ff_loop].
+  - intros H. injection H as H. subst b'. exact Hwf.
+  - destruct (id v >? C); [intros H; discriminate H|]. apply IH. apply ff_place_wf. exact Hwf.
+Qed.
+
+Lemma bf_place_wf C v (b : bins Z) : wf id b -> wf id (bf_place id true C v b).
+Proof.
+  intros Hwf. unfold bf_place. destruct (fst (bf_scan C (id v) b 0 (None, -1))) as [i|].
+  - apply add_item_wf. exact Hwf.
+  - unfold wf. apply Forall_app. split; [exact Hwf|]. constructor; [|constructor].
+    apply add_to_bin_wf; reflexivity.
+Qed.
+
+Lemma bf_loop_wf C vs : forall b b', wf id b -> bf_loop id true C vs b = Ok b' -> wf id b'.
+Proof.
+  induction vs as [|v t IH]; intros b b' Hwf; cbn [bf_loop].
+  - intros H. injection H as H. subst b'. exact Hwf.
+  - destruct (id v >? C); [intros H; discriminate H|]. apply IH. apply bf_place_wf. exact Hwf.
+Qed.
+
+Theorem ff_matches_any_ff : forall C vs b b', vs <> [] ->
+  first_fit id true C vs = Ok b -> ff_rule C vs b' -> b' = lists b /\ vsums b' = sums b.
+Proof.
+  intros C vs b b' Hne H R.
+  assert (E : b' = lists b).
+  { apply (ff_rule_deterministic C vs); [exact R|apply ff_refines_rule_gen; assumption]. }
+  split; [exact E|]. subst b'. symmetry. apply sums_vsums.
+  apply (ff_loop_wf C vs (new_bins 1) b); [apply new_bins_wf|exact H].
+Qed.
+
+Theorem ffd_matches_any_ffd : forall C vs b b', vs <> [] ->
+  first_fit_decreasing id true C vs = Ok b -> ffd_rule C vs b' -> b' = lists b /\ vsums b' = sums b.
+Proof.
+  intros C vs b b' Hne H R.
+  assert (E : b' = lists b).
+  { apply (ffd_rule_deterministic C vs); [exact R|apply ffd_refines_rule_gen; assumption]. }
+  split; [exact E|]. subst b'. symmetry. apply sums_vsums.
+  apply (ff_loop_wf C (sort_desc id vs) (new_bins 1) b); [apply new_bins_wf|exact H].
+Qed.
+
+Theorem bf_matches_any_bf : forall C vs b b', vs <> [] -> Forall (fun v => 0 <= v) vs ->
+  best_fit id true C vs = Ok b -> bf_rule C vs b' -> Permutation (vsums b') (sums b).
+Proof.
+  intros C vs b b' Hne Hvs H R.
+  rewrite (sums_vsums b); [|apply (bf_loop_wf C vs (new_bins 1) b); [apply new_bins_wf|exact H]].
+  apply (bf_rule_deterministic C vs); [exact R|apply bf_refines_rule_gen; assumption].
+Qed.
+
+Theorem bfd_matches_any_bfd : forall C vs b b', vs <> [] -> Forall (fun v => 0 <= v) vs ->
+  best_fit_decreasing id true C vs = Ok b -> bfd_rule C vs b' -> Permutation (vsums b') (sums b).
+Proof.
+  intros C vs b b' Hne Hvs H R.
+  rewrite (sums_vsums b);
+    [|apply (bf_loop_wf C (sort_desc id vs) (new_bins 1) b); [apply new_bins_wf|exact H]].
+  apply (bfd_rule_deterministic C vs); [exact R|apply bfd_refines_rule_gen; assumption].
+Qed.
+
+Theorem dec_matches_any_nfd : forall C vs b,
+  nfd_cover_rule C vs b -> b = lists (cover_decreasing id true C vs).
+Proof.
+  intros C vs b H. apply (nfd_cover_rule_deterministic C vs); [exact H|apply dec_refines_rule].
+Qed.
+
+Theorem tt_matches_any_twothirds : forall C vs b,
+  twothirds_rule C vs b -> b = lists (cover_twothirds id true C vs).
+Proof.
+  intros C vs b H. apply (twothirds_rule_deterministic C vs); [exact H|apply tt_refines_rule_gen].
+Qed.
+
+Theorem tq_matches_any_threequarters : forall C vs b,
+  threequarters_rule C vs b -> b = lists (cover_threequarters id true C vs).
+Proof.
+  intros C vs b H. apply (threequarters_rule_deterministic C vs); [exact H|apply tq_refines_rule_gen].
+Qed.
+
+Print Assumptions greedy_refines_lpt.
+Print Assumptions roundrobin_refines_rr.
+Print Assumptions ff_refines_rule_gen.
+Print Assumptions ff_refines_rule.
+Print Assumptions ffd_refines_rule_gen.
+Print Assumptions ffd_refines_rule.
+Print Assumptions bf_refines_rule_gen.
+Print Assumptions bf_refines_rule.
+Print Assumptions bfd_refines_rule_gen.
+Print Assumptions bfd_refines_rule.
+Print Assumptions dec_refines_rule.
+Print Assumptions tt_refines_rule_gen.
+Print Assumptions tt_refines_rule.
+Print Assumptions tq_refines_rule_gen.
+Print Assumptions tq_refines_rule.
+Print Assumptions ff_empty_input_differs.
+Print Assumptions bf_empty_input_differs.
+Print Assumptions bf_negative_value_differs.
+Print Assumptions nonincreasing_perm_unique.
+Print Assumptions lpt_rule_deterministic.
+Print Assumptions ff_rule_deterministic.
+Print Assumptions ffd_rule_deterministic.
+Print Assumptions bf_rule_deterministic.
+Print Assumptions bfd_rule_deterministic.
+Print Assumptions rr_rule_deterministic.
+Print Assumptions nfd_cover_rule_deterministic.
+Print Assumptions twothirds_rule_deterministic.
+Print Assumptions threequarters_rule_deterministic.
+Print Assumptions greedy_matches_any_lpt.
+Print Assumptions roundrobin_matches_any_rr.
+Print Assumptions ff_matches_any_ff.
+Print Assumptions ffd_matches_any_ffd.
+Print Assumptions bf_matches_any_bf.
+Print Assumptions bfd_matches_any_bfd.
+Print Assumptions dec_matches_any_nfd.
+Print Assumptions tt_matches_any_twothirds.
+Print Assumptions tq_matches_any_threequarters.
